@@ -27,6 +27,24 @@ func Run(c *hx.Ctx) {
 	} else {
 		c.Stat("zero_length_write.early-return-present")
 	}
+	e.dirWriteAsFound = probeWriteToDir()
+	e.renameOverDirAsFound = probeRenameOverDir()
+	if e.dirWriteAsFound {
+		c.Stat("write_to_directory.as-found(writable-handle-for-a-directory)")
+	} else {
+		c.Stat("write_to_directory.refused")
+	}
+	e.eqParentAsFound = probeEqParent()
+	if e.eqParentAsFound {
+		c.Stat("name_equals_parent.as-found(resolved-to-the-parent)")
+	} else {
+		c.Stat("name_equals_parent.walked")
+	}
+	if e.renameOverDirAsFound {
+		c.Stat("rename_over_directory.as-found(directory-replaced)")
+	} else {
+		c.Stat("rename_over_directory.refused")
+	}
 	if c.Args["part"] == "tree" { // development aid: only the tree-model correspondence
 		r := c.Rng.Fork()
 		e.corrTree(r)
@@ -34,6 +52,7 @@ func Run(c *hx.Ctx) {
 		return
 	}
 	e.zeroLength()
+	e.dirTargets()
 	e.exhaustive()
 	e.random()
 	e.fillCycles()
@@ -57,6 +76,88 @@ type eng struct {
 	// fat-empty-write-not-noop): past EOF it extends the file, at a cluster boundary at or past EOF
 	// it panics. Probed per run; while true, zero-length writes are generated off the trigger only.
 	emptyAsFound bool
+	// OpenFile hands out a writable handle for a directory (finding fat-write-to-directory) / Rename
+	// replaces an existing directory (finding fat-rename-over-directory). Probed per run; while true the
+	// calls on the trigger are left to the dedicated witnesses, once false they are generated and
+	// judged like every other call (the reference, Spec.step and the tree model refuse them: is a
+	// directory).
+	dirWriteAsFound      bool
+	renameOverDirAsFound bool
+	// a path 'x/x' is resolved to the directory x itself (finding fat-name-equals-parent). Probed per
+	// run; while true such paths are left to the name-domain histories (names.go), once false they are
+	// drawn like every other path.
+	eqParentAsFound bool
+}
+
+// probeEqParent: OpenFile("same/same", O_CREATE|O_RDWR) in an empty directory "same" creates the
+// file same/same once the path is walked by components; as found the call is answered with the
+// directory itself (or refused as a writing open of a directory) and nothing is created.
+func probeEqParent() (asFound bool) {
+	asFound = true
+	v, err := mkVol(volCfg{Kind: 12, Size: 64 * kib})
+	if err != nil {
+		return
+	}
+	_ = safely(func() error {
+		if err := v.fs.Mkdir("same"); err != nil {
+			return err
+		}
+		if f, err := v.fs.OpenFile("same/same", os.O_CREATE|os.O_RDWR); err == nil {
+			_ = f.Close()
+		}
+		des, err := v.fs.ReadDir("same")
+		if err != nil {
+			return err
+		}
+		for _, de := range des {
+			if de.Name() == "same" && !de.IsDir() {
+				asFound = false
+			}
+		}
+		return nil
+	})
+	return
+}
+
+// probeWriteToDir: OpenFile(dir, O_RDWR) succeeds as found; nothing is written through the handle.
+func probeWriteToDir() (asFound bool) {
+	v, err := mkVol(volCfg{Kind: 12, Size: 64 * kib})
+	if err != nil {
+		return true
+	}
+	_ = safely(func() error {
+		if err := v.fs.Mkdir("P"); err != nil {
+			return err
+		}
+		f, err := v.fs.OpenFile("P", os.O_RDWR)
+		if err == nil {
+			asFound = true
+			_ = f.Close()
+		}
+		return nil
+	})
+	return
+}
+
+// probeRenameOverDir: Rename(file, existing directory) succeeds as found.
+func probeRenameOverDir() (asFound bool) {
+	v, err := mkVol(volCfg{Kind: 12, Size: 64 * kib})
+	if err != nil {
+		return true
+	}
+	_ = safely(func() error {
+		if err := v.fs.Mkdir("P"); err != nil {
+			return err
+		}
+		f, err := v.fs.OpenFile("f.txt", os.O_CREATE|os.O_RDWR)
+		if err != nil {
+			return err
+		}
+		_ = f.Close()
+		asFound = v.fs.Rename("f.txt", "P") == nil
+		return nil
+	})
+	return
 }
 
 // probeEmptyWrite: Seek(10) + Write(nil) on a new empty file leaves it empty once Write returns
@@ -89,7 +190,6 @@ func probeEmptyWrite() (asFound bool) {
 func zeroTrigger(size, off int64, bpc int) bool {
 	return off > size || (off > 0 && off >= size && off%int64(bpc) == 0)
 }
-
 
 const (
 	kib = int64(1024)
@@ -238,6 +338,161 @@ func (e *eng) zeroLength() {
 			if vi == 0 && variant == 0 {
 				c.Sample(fmt.Sprintf("zero-length history %s on %s: %s", id, cfg, opsString(h.ops[:min(len(h.ops), 8)])))
 			}
+		}
+	}
+}
+
+// ---------------------------------------------------------------- directories as targets (fixers round)
+
+// ontoDirPairs lists (source, target) of the reference where target is an existing directory and
+// source another entry of the same parent.
+func (h *hist) ontoDirPairs() [][2]string {
+	var out [][2]string
+	var walk func(n *refNode, p string)
+	walk = func(n *refNode, p string) {
+		for _, c2 := range n.children {
+			if !c2.isDir {
+				continue
+			}
+			for _, c1 := range n.children {
+				if c1 != c2 {
+					out = append(out, [2]string{joinP(p, c1.name), joinP(p, c2.name)})
+				}
+			}
+			walk(c2, joinP(p, c2.name))
+		}
+	}
+	walk(h.ref.root, "")
+	return out
+}
+
+// dirTargets: the calls the findings fat-write-to-directory and fat-rename-over-directory are about,
+// as ordinary steps of a history (tree oracle, re-opened view, raw checker after every step): a
+// write / append / truncating open addressed to a directory (empty, non-empty, nested, grown past
+// one cluster) and a rename onto an existing directory (of a file, of an empty and of a non-empty
+// directory) must be refused and change nothing; opening a directory for reading, renaming a
+// directory to a free name and onto a file, and every call on what lies below the directories go on
+// working. While a finding is in the tree its part is left to the dedicated witness.
+func (e *eng) dirTargets() {
+	c := e.c
+	if e.dirWriteAsFound && e.renameOverDirAsFound {
+		return
+	}
+	for vi, cfg := range e.vols(true) {
+		id := fmt.Sprintf("dt%d", vi)
+		if !c.Want(id) {
+			continue
+		}
+		v, err := mkVol(cfg)
+		if err != nil {
+			c.Fail(id, "-", "Create failed: "+err.Error(), cfg.String())
+			continue
+		}
+		h := newHist(c, e.prop, id, v)
+		bpc := v.prevBPC()
+		if bpc > 8192 {
+			bpc = 8192
+		}
+		w := func(p string, off int64, n, seed int, create bool) *op {
+			return &op{Kind: "write", Path: p, Off: off, Data: payload(seed, n), Create: create}
+		}
+		steps := []*op{
+			{Kind: "mkdir", Path: "Q/E"},
+			w("Q/inside.txt", 0, 200, 3, true),
+			w("Q/E/inner.txt", 0, bpc+9, 5, true),
+			w("plain.txt", 0, 77, 7, true),
+			{Kind: "mkdir", Path: "empty dir"},
+		}
+		for k := 0; k < 2+bpc/32/3; k++ { // Q grows past one cluster
+			steps = append(steps, &op{Kind: "create", Path: fmt.Sprintf("Q/%c long entry name number.dat", 'a'+k%26)})
+			if k >= 40 {
+				break
+			}
+		}
+		if !e.dirWriteAsFound {
+			steps = append(steps,
+				w("Q", 0, 200, 11, false),
+				w("Q", 0, 200, 11, true),
+				w("Q/E", 5, bpc+1, 13, false),
+				w("empty dir", 0, 1, 17, true),
+				&op{Kind: "append", Path: "Q", Data: payload(19, 40)},
+				&op{Kind: "append", Path: "empty dir", Data: payload(23, bpc)},
+				&op{Kind: "trunc", Path: "Q"},
+				&op{Kind: "trunc", Path: "Q/E", Data: payload(29, 10), Create: true},
+				&op{Kind: "trunc", Path: "empty dir", Create: true},
+				&op{Kind: "write", Path: "Q", Zero: true},
+				&op{Kind: "write", Path: "Q/E", Off: 3, Zero: true, Nil: true},
+				w("Q/after.txt", 0, bpc+3, 31, true),
+				w("Q/E/inner.txt", 4, 10, 37, false),
+				w("empty dir/first.txt", 0, 5, 41, true),
+			)
+		}
+		if !e.renameOverDirAsFound {
+			steps = append(steps,
+				&op{Kind: "rename", Path: "plain.txt", Path2: "Q"},         // a file onto a non-empty directory
+				&op{Kind: "rename", Path: "plain.txt", Path2: "q"},         // in another spelling
+				&op{Kind: "rename", Path: "Q/inside.txt", Path2: "Q/E"},    // below the root
+				&op{Kind: "mkdir", Path: "other"},                          //
+				&op{Kind: "rename", Path: "plain.txt", Path2: "other"},     // a file onto an empty directory
+				&op{Kind: "rename", Path: "other", Path2: "Q"},             // an empty directory onto a non-empty one
+				&op{Kind: "rename", Path: "Q", Path2: "other"},             // a non-empty directory onto an empty one
+				&op{Kind: "rename", Path: "Q", Path2: "Q2"},                // a directory to a free name: as before
+				&op{Kind: "rename", Path: "Q2", Path2: "Q"},                //
+				&op{Kind: "rename", Path: "plain.txt", Path2: "moved.txt"}, // plain rename: as before
+				w("over.txt", 0, 9, 43, true),
+				&op{Kind: "rename", Path: "moved.txt", Path2: "over.txt"}, // a file over a file: as before
+				&op{Kind: "rename", Path: "other", Path2: "over.txt"},     // a directory over a file: as before (the file is replaced)
+				w("Q/E/inner.txt", 0, 3, 47, false),
+				&op{Kind: "remove", Path: "over.txt"},
+			)
+		}
+		for _, o := range steps {
+			if !h.step(o) {
+				break
+			}
+		}
+		h.closeAll()
+		// the root directory and read-only opens, outside the history (the reference has no name for the root)
+		if !e.dirWriteAsFound && c.Want(id+"/root") {
+			var problems []string
+			before := v.dev.Hash(cfg.Start, cfg.Start+cfg.Size)
+			for _, p := range []string{".", "/", "Q", "/Q/E"} {
+				for _, fl := range []int{os.O_RDWR, os.O_WRONLY, os.O_RDWR | os.O_TRUNC, os.O_RDWR | os.O_APPEND, os.O_RDWR | os.O_CREATE} {
+					err := safely(func() error {
+						f, err := v.fs.OpenFile(p, fl)
+						if err == nil {
+							_ = f.Close()
+						}
+						return err
+					})
+					if err == nil || errClass(err) == "panic" {
+						problems = append(problems, fmt.Sprintf("OpenFile(%q, %#x): %v", p, fl, err))
+					}
+				}
+				if err := safely(func() error {
+					f, err := v.fs.OpenFile(p, os.O_RDONLY)
+					if err == nil {
+						_ = f.Close()
+					}
+					return err
+				}); err != nil {
+					problems = append(problems, fmt.Sprintf("OpenFile(%q, O_RDONLY): %v", p, err))
+				}
+			}
+			if after := v.dev.Hash(cfg.Start, cfg.Start+cfg.Size); after != before {
+				problems = append(problems, "the refused opens changed the image")
+			}
+			if len(problems) > 0 {
+				c.Fail(id+"/root", "-", strings.Join(problems, "; "), cfg.String())
+			} else {
+				c.OK(id + "/root")
+			}
+		}
+		h.emitSpecTie()
+		c.Stat("directory-target-histories")
+		c.Distinct(fmt.Sprintf("dt|%s|%v|%v", cfg, e.dirWriteAsFound, e.renameOverDirAsFound))
+		if vi == 0 {
+			c.Sample(fmt.Sprintf("directory-target history %s on %s: %s", id, cfg, opsString(h.ops[max(0, len(h.ops)-10):])))
 		}
 	}
 }
@@ -412,11 +667,28 @@ func (e *eng) randOp(r *hx.Rng, h *hist, st *randState, holePct int) *op {
 		}
 		return hx.Pick(r, fs)
 	}
+	// a directory of the reference as the target of a write / append / truncating open: generated
+	// once the code refuses it (the draw is skipped while the finding is in the tree)
+	dirTarget := func(p string) string {
+		if e.dirWriteAsFound || !r.Chance(6) {
+			return p
+		}
+		var ds []string
+		for _, l := range h.ref.view() {
+			if l.isDir {
+				ds = append(ds, l.path)
+			}
+		}
+		if len(ds) == 0 {
+			return p
+		}
+		return hx.Pick(r, ds)
+	}
 	switch k := r.Intn(100); {
 	case k < 8:
 		pd := pickDir()
 		nm := hx.Pick(r, safeDirs)
-		for strings.HasSuffix("/"+pd, "/"+nm) {
+		for e.eqParentAsFound && strings.HasSuffix("/"+pd, "/"+nm) {
 			nm = hx.Pick(r, safeDirs) // a name equal to its parent's is probed separately (fat-name-equals-parent)
 		}
 		d := join(pd, nm)
@@ -429,7 +701,7 @@ func (e *eng) randOp(r *hx.Rng, h *hist, st *randState, holePct int) *op {
 		p := join(pickDir(), hx.Pick(r, safeNames))
 		return &op{Kind: "write", Path: p, Off: 0, Data: pattern(r, sizeClasses(r, bps, bpc)), Create: true}
 	case k < 48:
-		p := existing()
+		p := dirTarget(existing())
 		cur := 0
 		if n := h.ref.lookup(p); n != nil {
 			cur = len(n.data)
@@ -452,18 +724,26 @@ func (e *eng) randOp(r *hx.Rng, h *hist, st *randState, holePct int) *op {
 		}
 		return &op{Kind: "write", Path: p, Off: int64(off), Data: pattern(r, 1+sizeClasses(r, bps, bpc)), Create: r.Chance(30)}
 	case k < 60:
-		return &op{Kind: "append", Path: existing(), Data: pattern(r, 1+sizeClasses(r, bps, bpc))}
+		return &op{Kind: "append", Path: dirTarget(existing()), Data: pattern(r, 1+sizeClasses(r, bps, bpc))}
 	case k < 70:
-		return &op{Kind: "trunc", Path: existing(), Data: pattern(r, sizeClasses(r, bps, bpc)), Create: r.Chance(20)}
+		return &op{Kind: "trunc", Path: dirTarget(existing()), Data: pattern(r, sizeClasses(r, bps, bpc)), Create: r.Chance(20)}
 	case k < 80:
+		if !e.renameOverDirAsFound && r.Chance(12) {
+			// onto an existing directory of the same parent (the source a file or another directory):
+			// refused, nothing changes (generated once the code refuses it)
+			if pairs := h.ontoDirPairs(); len(pairs) > 0 {
+				pr := hx.Pick(r, pairs)
+				return &op{Kind: "rename", Path: pr[0], Path2: pr[1]}
+			}
+		}
 		p := existing()
 		d := ""
 		if i := strings.LastIndex(p, "/"); i >= 0 {
 			d = p[:i]
 		}
 		p2 := join(d, hx.Pick(r, safeNames))
-		if n := h.ref.lookup(p2); n != nil && n.isDir {
-			p2 = join(d, "renamed.x")
+		if n := h.ref.lookup(p2); n != nil && n.isDir && e.renameOverDirAsFound {
+			p2 = join(d, "renamed.x") // fat-rename-over-directory
 		}
 		return &op{Kind: "rename", Path: p, Path2: p2}
 	case k < 94:
